@@ -5,6 +5,8 @@ import (
 	"reflect"
 	"strconv"
 	"strings"
+	"unicode"
+	"unicode/utf8"
 
 	"gitee.com/xuesongtao/protoc-go-valid/valid/internal"
 	// "gitlab.cd.anpro/go/common/valid/internal"
@@ -136,8 +138,8 @@ func IsExported(fieldName string) bool {
 	if fieldName == "" {
 		return false
 	}
-	first := fieldName[0]
-	return first >= 'A' && first <= 'Z'
+	first, _ := utf8.DecodeRuneInString(fieldName)
+	return unicode.IsUpper(first)
 }
 
 // validInputSize 验证输入的大小
